@@ -1,7 +1,8 @@
-import Ark.Proofs.GenBridge
+import Ark.Proofs.GenBridge.Filter
 import Ark.Proofs.MaskLemmas
 import Ark.Proofs.ArchIndex
 import Ark.Props.C03Drain
+import Ark.Props.C20Words
 
 namespace Ark.Props.C03
 open Ark
@@ -41,5 +42,25 @@ theorem visits_nodup : type_of% @Ark.Props.C03Drain.visits_nodup := @Ark.Props.C
 
 /-- a complete iteration returns these visits and only releases its lock bit -/
 theorem drain_closes_and_unlocks : type_of% @Ark.Props.C03Drain.drain_rows_monadic := @Ark.Props.C03Drain.drain_rows_monadic
+
+
+/-! ## the mask tests `filter.matches` relies on, as the word-level Go code computes them -/
+
+theorem words_mask256_contains : type_of% @Ark.Props.C20Words.mask256_contains := @Ark.Props.C20Words.mask256_contains
+
+theorem words_mask256_containsAny : type_of% @Ark.Props.C20Words.mask256_containsAny := @Ark.Props.C20Words.mask256_containsAny
+
+theorem words_mask256_not : type_of% @Ark.Props.C20Words.mask256_not := @Ark.Props.C20Words.mask256_not
+
+theorem words_mask256_get : type_of% @Ark.Props.C20Words.mask256_get := @Ark.Props.C20Words.mask256_get
+
+theorem words_mask256_ofIDs : type_of% @Ark.Props.C20Words.mask256_ofIDs := @Ark.Props.C20Words.mask256_ofIDs
+
+theorem words_mask64_contains : type_of% @Ark.Props.C20Words.mask64_contains := @Ark.Props.C20Words.mask64_contains
+
+theorem words_mask64_containsAny : type_of% @Ark.Props.C20Words.mask64_containsAny := @Ark.Props.C20Words.mask64_containsAny
+
+theorem words_mask64_not : type_of% @Ark.Props.C20Words.mask64_not := @Ark.Props.C20Words.mask64_not
+
 
 end Ark.Props.C03
